@@ -431,5 +431,5 @@ func frozen(src *source, ms int, what string) *vt.Finding {
 
 func TestConsume(t *testing.T) {
 	shrinkBudget("10s") // a failing case costs milliseconds to seconds: bound the time rapid spends minimising
-	vt.Run(t, cP, vt.N(1000, 24000), genP, runP)
+	vt.Run(t, cP, vt.N(900, 24000), genP, runP)
 }
